@@ -160,6 +160,7 @@ func (s *script) Delivered(ep string, rep uint64, ids []int, _ error) {
 
 // FanoutResult is what one scripted request produced.
 type FanoutResult struct {
+	Hung              bool    `json:"hung,omitempty"` // the handler did not answer within 8s after the last response
 	Status            int     `json:"status"`
 	Body              string  `json:"body"`
 	DeliveredAtReturn int     `json:"delivered_at_return"` // responses on the channel when the handler returned (>= consumed)
@@ -342,8 +343,21 @@ func RunFanout(in *FanoutInput) (*FanoutResult, error) {
 	}
 	select {
 	case <-done:
-	case <-time.After(20 * time.Second):
-		return nil, fmt.Errorf("handler did not return after all responses were released")
+	case <-time.After(8 * time.Second):
+		// every forwarded write has responded, yet the request is not answered:
+		// reported to the caller as an observation (a failing case), not as a harness error
+		res := &FanoutResult{Hung: true, Order: order, DeliveredAtReturn: len(order)}
+		sc.mu.Lock()
+		for _, i := range order {
+			ids := append([]int(nil), sc.delivered[keyOf(in.Writes[i])]...)
+			sort.Ints(ids)
+			res.IDs = append(res.IDs, ids)
+		}
+		for _, w := range in.Writes {
+			res.Responses = append(res.Responses, sc.count[keyOf(w)])
+		}
+		sc.mu.Unlock()
+		return res, nil
 	}
 	if panicked != nil {
 		return nil, fmt.Errorf("handler panicked: %v", panicked)
